@@ -246,13 +246,13 @@ func (a *AnySchema) checkAndConvert(data any) (any, error) {
 	case reflect.Uint64:
 		return intInputMapper(data, nil)
 	case reflect.Int64:
-		return data.(int64), nil
+		return t.Int(), nil
 	case reflect.Float32:
 		return floatInputMapper(data, nil)
 	case reflect.Float64:
 		return asFloat(data)
 	case reflect.String:
-		return data.(string), nil
+		return t.String(), nil
 	case reflect.Bool:
 		return asBool(data)
 	case reflect.Slice:
